@@ -267,8 +267,11 @@ def shownText (st : Styles) (n : Node) : List Str :=
   if n.loc == sTbl then tableTextCells (rrows (parseTable n)) else [(processParagraph st n).text]
 
 /-- **docx_end_to_end**. For every document tree whose root holds one `body`, every styles,
-numbering, header and footer part: the reader's elements are the body's direct `w:p` / `w:tbl`
-children in source order, each processed by itself; `Text()` shows their texts (paragraph
+numbering, header and footer part: the reader's elements are the `w:p` / `w:tbl` elements at
+the block level of the body - its direct children and the blocks inside block-level containers
+(`w:sdt` / `w:sdtContent`, `w:customXml`, nested to any depth; `C16.bodyBlocks`,
+`C16.body_container_transparent`), each at the place of its container - in source order, each
+processed by itself; `Text()` shows their texts (paragraph
 texts = runs and inline content in source order, `para_inline_order`; cell texts row by row)
 in that order; so does the Markdown buffer, of which `Markdown()` cuts only newlines at the
 ends; and the page of `Document()`, lists taken apart, is these elements in that order with
@@ -279,7 +282,7 @@ theorem docx_reader_end_to_end (docTag bodyTag : Str) (da ba : List (Str × Str)
     (hdoc : localName docTag ≠ sBody) (hbody : localName bodyTag = sBody)
     (hpre : noBodyList pre = true) (hpost : noBodyList post = true) :
     let rd := openReader (.elem docTag da (pre ++ [.elem bodyTag ba kids] ++ post)) styles numbering headers footers
-    let body := kids.filter isBodyElem
+    let body := C16.bodyBlocks kids
     rd.elements = body.map (fun n => (processElement (stylesOf styles) n, gridColsOf n))
     ∧ InOrder (body.map (shownText (stylesOf styles))).flatten (text rd)
     ∧ InOrder ((body.map (processElement (stylesOf styles))).map (mdTexts rd {})).flatten (markdownRaw rd {} {})
@@ -313,18 +316,19 @@ theorem docx_reader_end_to_end (docTag bodyTag : Str) (da ba : List (Str × Str)
 
 /-- **docx_end_to_end**. RESTATED (was: for every document tree with one body; the statement
 of `docx_reader_end_to_end`): `paragraphXML.decodeContent` now refuses the 10001st level of
-nested inline containers and `docx.Open` then fails. With `hdec` - every paragraph
-`xml.Unmarshal` decodes (body paragraphs, paragraphs of the cells of body tables) nests its
-inline containers at most `maxInlineDepth` = 10000 deep (`documentDecodes`, decidable;
-`C16Bounds.docx_decodes_iff_depth`) - `Open` succeeds and the reader presents the body as
-stated. Beyond the bound `docx_refused`: `Open` returns an error, nothing is presented. -/
+nested inline containers, `decodeBlocks` the 10001st level of nested block containers, and
+`docx.Open` then fails. With `hdec` - every paragraph `xml.Unmarshal` decodes (body paragraphs,
+paragraphs of the cells of body tables) nests its inline containers at most `maxInlineDepth` =
+10000 deep, and the block containers of the body and of every decoded cell nest at most that
+deep (`documentDecodes`, decidable; `C16Bounds.docx_open_iff_depth`) - `Open` succeeds and the
+reader presents the body as stated. Beyond the bound `docx_refused`: `Open` returns an error, nothing is presented. -/
 theorem docx_end_to_end (docTag bodyTag : Str) (da ba : List (Str × Str)) (pre kids post : List Node)
     (styles numbering : Option Node) (headers footers : List Node)
     (hdoc : localName docTag ≠ sBody) (hbody : localName bodyTag = sBody)
     (hpre : noBodyList pre = true) (hpost : noBodyList post = true)
     (hdec : documentDecodes (.elem docTag da (pre ++ [.elem bodyTag ba kids] ++ post)) = true) :
     ∃ rd, openReader? (.elem docTag da (pre ++ [.elem bodyTag ba kids] ++ post)) styles numbering headers footers = some rd ∧
-      (let body := kids.filter isBodyElem
+      (let body := C16.bodyBlocks kids
        rd.elements = body.map (fun n => (processElement (stylesOf styles) n, gridColsOf n))
        ∧ InOrder (body.map (shownText (stylesOf styles))).flatten (text rd)
        ∧ InOrder ((body.map (processElement (stylesOf styles))).map (mdTexts rd {})).flatten (markdownRaw rd {} {})
